@@ -192,6 +192,11 @@ Qed.
 
 (* ---------------------------------------------------------------- references, handles, counters *)
 
+Section WithZq.
+(* zq: the nodes for which some goroutine still has the zero-check of a dropped last reference
+   pending (always empty in the sequential semantics) — they are exempt from ri_pos *)
+Variable zq : N -> bool.
+
 Record RInv (p : N -> Z) (nodes : list node) (hs : list (N * N)) (closed forced : bool)
             (nh : N) (stn sts : Z) : Prop := {
   ri_p : forall x, (0 <= p x)%Z;
@@ -199,7 +204,7 @@ Record RInv (p : N -> Z) (nodes : list node) (hs : list (N * N)) (closed forced 
   ri_ref : forced = false -> forall n, In n nodes ->
              n_ref n = (hcount (n_id n) hs + rcount n + p (n_id n))%Z;
   ri_pos : forced = false -> forall n, In n nodes ->
-             (closed = false \/ n_val n <> None \/ n_dels n <> []) -> (0 < n_ref n)%Z;
+             (closed = false \/ n_val n <> None \/ n_dels n <> []) -> zq (n_id n) = false -> (0 < n_ref n)%Z;
   ri_fc : forced = true -> closed = true;
   ri_hnd : NoDup (map fst hs);
   ri_hfresh : forall h x, In (h, x) hs -> h < nh;
@@ -236,7 +241,7 @@ Lemma RInv_upd p p' nodes hs closed forced nh stn sts sts' x f n :
   RInv p nodes hs closed forced nh stn sts -> NoDup (ids nodes) -> In n nodes -> n_id n = x -> pres f ->
   (forall y, 0 <= p' y)%Z -> (forall y, y <> x -> p' y = p y) ->
   (forced = false -> n_ref (f n) = (hcount x hs + rcount (f n) + p' x)%Z) ->
-  (forced = false -> (closed = false \/ n_val (f n) <> None \/ n_dels (f n) <> []) -> (0 < n_ref (f n))%Z) ->
+  (forced = false -> (closed = false \/ n_val (f n) <> None \/ n_dels (f n) <> []) -> zq (n_id n) = false -> (0 < n_ref (f n))%Z) ->
   (forced = false -> (0 < hcount x hs)%Z -> n_val (f n) <> None) ->
   (closed = false -> sts' = (sts - scontrib n + scontrib (f n))%Z) ->
   (closed = false -> n_val (f n) = None -> n_size (f n) = 0) ->
@@ -252,7 +257,8 @@ Proof.
     + rewrite (Uq m0 Hm0 e). rewrite (proj1 (Hf n)), Hx. auto.
     + rewrite Hpo; auto.
   - intros Hc m Hm. apply in_upd in Hm. destruct Hm as (m0 & Hm0 & ->).
-    destruct (N.eqb_spec (n_id m0) x) as [e|ne]; auto. rewrite (Uq m0 Hm0 e). auto.
+    destruct (N.eqb_spec (n_id m0) x) as [e|ne]; auto. rewrite (Uq m0 Hm0 e).
+    intros Hq Hz. rewrite (proj1 (Hf n)) in Hz. auto.
   - intros h y Hy. rewrite ids_upd; eauto.
   - intros Hfo m Hm. apply in_upd in Hm. destruct Hm as (m0 & Hm0 & ->).
     destruct (N.eqb_spec (n_id m0) x) as [e|ne]; auto. rewrite (Uq m0 Hm0 e).
@@ -364,6 +370,15 @@ Lemma RInv_close p nodes hs nh stn sts force :
 Proof.
   intros [P PD R PO FC HN HF HO HV ST S0]. split; auto; try (intros; discriminate).
   all: intros ->; auto.
+Qed.
+
+End WithZq.
+
+Lemma RInv_zq_weaken zq zq' p nodes hs c f nh a b :
+  (forall y, zq y = true -> zq' y = true) -> RInv zq p nodes hs c f nh a b -> RInv zq' p nodes hs c f nh a b.
+Proof.
+  intros W [P PD R PO FC HN HF HO HV ST S0]. split; auto.
+  intros Hf n Hn Hq Hz. apply PO; auto. destruct (zq (n_id n)) eqn:E; auto. apply W in E. congruence.
 Qed.
 
 (* ---------------------------------------------------------------- the log: values and delFuncs *)
